@@ -511,13 +511,67 @@ func (c *c39State) evilRelayOp(rt *rapid.T, w *nsWorld, h *nsHist) {
 		kind = fmt.Sprintf("bit flipped at %d", off)
 	}
 	idx := e.rel.RemoteIndex
-	if rapid.IntRange(0, 3).Draw(rt, "er.otheridx") == 0 {
+	// An unauthenticated recv_error wrapped in a relay message: only the RELAY's key covers it, so it
+	// speaks for the relay's underlay address at most - it must not close a tunnel the target holds
+	// directly with somebody else.
+	var victim *HostInfo
+	var target *nsNode
+	if rapid.IntRange(0, 3).Draw(rt, "er.recverr") == 0 && len(e.t.vpnAddrs) > 0 {
+		for i, sp := range w.specs {
+			if w.live(i) && len(sp.nets) > 0 && sp.nets[0].Addr() == e.t.vpnAddrs[0] {
+				target = w.nodes[i]
+			}
+		}
+		if target != nil {
+			var direct []*HostInfo
+			for _, t := range target.allTunnels() {
+				if rm := t.GetRemote(); rm.IsValid() && rm != r.udpAddr {
+					direct = append(direct, t)
+				}
+			}
+			if len(direct) > 0 {
+				victim = direct[rapid.IntRange(0, len(direct)-1).Draw(rt, "er.victim")]
+				inner = make([]byte, header.Len)
+				nsSetHeader(inner, header.RecvError, 0, victim.remoteIndexId, 0)
+				kind = fmt.Sprintf("recv_error naming the target's direct tunnel %d to %v", victim.localIndexId, victim.vpnAddrs)
+			}
+		}
+	}
+	if victim == nil && rapid.IntRange(0, 3).Draw(rt, "er.otheridx") == 0 {
 		o := ents[rapid.IntRange(0, len(ents)-1).Draw(rt, "er.other")]
 		idx = o.rel.RemoteIndex
 	}
 	r.ctrl.f.SendVia(e.t, &Relay{RemoteIndex: idx}, inner, make([]byte, 12), make([]byte, mtu), false, 0)
 	w.s.settle()
 	c.evilRelay++
+	if victim != nil {
+		h.note("relay-key holder sends a %s to %s under relay index %d", kind, target.name, idx)
+		// deliver just that datagram; everything else stays in flight
+		var mine, rest []*nsPacket
+		for _, p := range w.s.takeInflight() {
+			if hd, ok := nsHeaderOf(p.Data); ok && p.Src == r.idx && p.To == target.udpAddr && hd.Type == header.Message && hd.Subtype == header.MessageRelay && len(p.Data) == header.Len+header.Len+16 {
+				mine = append(mine, p)
+			} else {
+				rest = append(rest, p)
+			}
+		}
+		w.s.mu.Lock()
+		w.s.inflight = append(rest, w.s.inflight...)
+		w.s.mu.Unlock()
+		for _, p := range mine {
+			h.deliverPkt(p)
+		}
+		w.s.settle()
+		hm := target.ctrl.f.hostMap
+		hm.RLock()
+		still := hm.Indexes[victim.localIndexId] == victim
+		hm.RUnlock()
+		if !still {
+			rt.Fatalf("node %s dropped its direct tunnel %d to %v (remote %v) because of an unauthenticated recv_error that arrived wrapped in a relay message from %s", target.name, victim.localIndexId, victim.vpnAddrs, victim.GetRemote(), r.name)
+		}
+		vk.Label(w.pidLabel(), "relayed-recv-error-for-a-direct-tunnel")
+		return
+	}
 	h.note("relay-key holder sends %d inner bytes (%s) to %v under relay index %d", len(inner), kind, e.t.vpnAddrs, idx)
 }
 
